@@ -81,6 +81,8 @@ def run(spec, cfg, *, workers=None, simulate=None, seed=None, env=None, timeout=
             cmd += ["-seed", str(seed)]
     cmd.append(spec)
     e = dict(os.environ)
+    e.setdefault("VERIF_CAT_STRIDE", "1")
+    e.setdefault("VERIF_CAT_PHASE", "0")
     if env:
         e.update({k: str(v) for k, v in env.items()})
     t0 = time.time()
